@@ -1624,6 +1624,18 @@ func (c *codegen) Visit(node ast.Node) ast.Visitor {
 		emit.Opcodes(c.prog.BinWriter, opcode.OVER, opcode.OVER)
 		emit.Jmp(c.prog.BinWriter, opcode.JMPLEL, end)
 
+		if isMap {
+			// The keys are collected before the first iteration, an entry
+			// removed by the loop body in the meantime is not produced.
+			c.rangeLoadKey()
+			emit.Int(c.prog.BinWriter, 4)
+			emit.Opcodes(c.prog.BinWriter,
+				opcode.PICK, // load map itself (+1 because key was pushed)
+				opcode.SWAP, // key should be on top
+				opcode.HASKEY)
+			emit.Jmp(c.prog.BinWriter, opcode.JMPIFNOTL, post)
+		}
+
 		var (
 			haveKey   bool
 			haveVal   bool
